@@ -447,7 +447,7 @@ func TestRoundTrip(t *testing.T) {
 	hx.Checks(5000, 40000)
 	rapid.Check(t, func(rt *rapid.T) {
 		c := Case{Dialect: genDialect(rt), Src: "generated"}
-		c.SQL = sqlgen.Statement(rt, sqlgen.Opts{Dialect: c.Dialect, MaxDepth: rapid.SampledFrom([]int{1, 2, 2, 3, 3, 4}).Draw(rt, "maxdepth")})
+		c.SQL = sqlgen.Statement(rt, sqlgen.Opts{RawByteNames: true, Dialect: c.Dialect, MaxDepth: rapid.SampledFrom([]int{1, 2, 2, 3, 3, 4}).Draw(rt, "maxdepth")})
 		vs, info := CheckRoundTrip(c)
 		R.Seen("TestRoundTrip", c, nontrivial(info), classes(c, info)...)
 		R.Report(rt, "TestRoundTrip", c, vs)
@@ -459,7 +459,7 @@ func TestSplice(t *testing.T) {
 	hx.Checks(2500, 20000)
 	rapid.Check(t, func(rt *rapid.T) {
 		c := Case{Dialect: genDialect(rt), Src: "splice"}
-		c.SQL = sqlgen.Splice(rt, sqlgen.Opts{Dialect: c.Dialect, MaxDepth: 2})
+		c.SQL = sqlgen.Splice(rt, sqlgen.Opts{RawByteNames: true, Dialect: c.Dialect, MaxDepth: 2})
 		if c.SQL == "" {
 			R.Class("TestSplice", "nothing-to-graft")
 			return
@@ -533,7 +533,7 @@ func FuzzGrammar(f *testing.F) {
 	f.Add([]byte("select a, b from t where a = 1 order by b limit 3"))
 	f.Fuzz(rapid.MakeFuzz(func(rt *rapid.T) {
 		c := Case{Dialect: genDialect(rt), Src: "fuzz-grammar"}
-		c.SQL = sqlgen.Statement(rt, sqlgen.Opts{Dialect: c.Dialect, MaxDepth: 4})
+		c.SQL = sqlgen.Statement(rt, sqlgen.Opts{RawByteNames: true, Dialect: c.Dialect, MaxDepth: 4})
 		vs, _ := CheckRoundTrip(c)
 		R.Report(rt, "FuzzGrammar", c, vs)
 	}))
